@@ -163,3 +163,126 @@ s2k_count_set = Contract(
     props=('C09', 'C12'))
 
 CONTRACTS += [sub_header_parse, sub_header_bytes, sub_header_len, mpi_encode, mpi_len, mpi_decode, s2k_count, s2k_count_set]
+
+
+# ---------------------------------------------------------------------------------------------------
+# partial body lengths (4.2.2.4): bounded stand-in.  The while loop of Header.length_bin consumes the chunk headers in place;
+# an inductive invariant over the buffer needs the recursive spec partial_chain unfolded per iteration, which z3's sequence solver
+# did not decide reliably (it also ignores its timeout there), so this clause is checked natively over every chunking listed below.
+def partial_lengths_bounded(tier='quick', seed=0, known=()):
+    import itertools, random
+    from pgpy.packet.types import Header
+    from specs import lengths as L
+    rng = random.Random(seed)
+    cases, viol, samples, distinct = 0, [], [], set()
+    exps = range(0, 9) if tier == 'quick' else range(0, 13)          # chunk sizes 1 .. 256 (4096 thorough)
+    finals = [0, 1, 191, 192, 193, 8383, 8384, 8385, 70000] if tier != 'quick' else [0, 1, 191, 192, 500, 8384]
+    chains = [()]
+    for k in (1, 2, 3):
+        chains += list(itertools.product(exps, repeat=k)) if k < 3 or tier != 'quick' else [tuple(rng.choice(list(exps)) for _ in range(3)) for _ in range(300)]
+    for chain in chains:
+        for fin in finals:
+            if sum(1 << e for e in chain) + fin > (1 << 17):
+                continue
+            body = bytes(rng.randrange(256) for _ in range(sum(1 << e for e in chain) + fin))
+            enc, pos = bytearray(), 0
+            for e in chain:
+                enc.append(224 + e)
+                enc += body[pos:pos + (1 << e)]
+                pos += 1 << e
+            enc += L.new_length(fin) + body[pos:]
+            tail = b'\xAA\xBB\xCC'
+            buf = bytearray(enc + tail)
+            h = Header()
+            h._lenfmt = 1
+            cases += 1
+            distinct.add((chain, fin))
+            try:
+                h.length = buf
+                ok = h._len == len(body) and bytes(buf) == body + tail
+                why = None if ok else 'length %r (want %d) or remaining octets differ' % (h._len, len(body))
+            except Exception as ex:
+                ok, why = False, 'exception %r' % (ex,)
+            if len(samples) < 4 and chain:
+                samples.append({'chunk_exponents': list(chain), 'final_length': fin, 'decoded': h._len})
+            if not ok and len(viol) < 5:
+                viol.append({'case': {'chunk_exponents': list(chain), 'final_length': fin, 'encoded_prefix': bytes(enc[:24]).hex()}, 'what': why})
+    return {'name': 'C09/partial-body-lengths', 'bound': 'chains of 0..3 partial chunks with every exponent in %s x final lengths %s (bodies up to 2^17 octets), random content, three trailing octets' % (list(exps), finals),
+            'cases': cases, 'distinct_nontrivial': len([d for d in distinct if d[0]]), 'rule': 'one case per (chunk exponent tuple, final length); non-trivial = at least one partial chunk',
+            'exhaustive': tier != 'quick', 'samples': samples, 'violations': viol, 'known_hits': []}
+
+
+def timestamps_bounded(tier='quick', seed=0, known=()):
+    """four-octet timestamps (key creation, literal time, signature creation / expiration subpackets): the instant's epoch, whatever tzinfo"""
+    import random, calendar
+    from datetime import datetime, timezone, timedelta
+    import pgpy
+    from pgpy.packet.packets import PubKeyV4, LiteralData
+    from pgpy.packet.subpackets.signature import CreationTime
+    rng = random.Random(seed)
+    epochs = [0, 1, 2 ** 31 - 1, 2 ** 31, 2 ** 32 - 1, 86399, 86400, 1700000000] + [rng.randrange(2 ** 32) for _ in range(40 if tier == 'quick' else 400)]
+    offsets = [0, 330, -720, 840, 60]
+    cases, viol, samples = 0, [], []
+    for ep in epochs:
+        for off in offsets:
+            tz = timezone(timedelta(minutes=off))
+            d = datetime.fromtimestamp(ep, timezone.utc).astimezone(tz)
+            want = ep.to_bytes(4, 'big')
+            for name, mk in (('PubKeyV4.created', lambda: _pk(d)), ('LiteralData.mtime', lambda: _lit(d)), ('CreationTime', lambda: _ct(d))):
+                cases += 1
+                try:
+                    got, back = mk()
+                    ok = got == want and back == ep
+                    why = None if ok else '%s: octets %s, want %s; decoded %r' % (name, got.hex(), want.hex(), back)
+                except Exception as ex:
+                    ok, why = False, '%s: exception %r' % (name, ex)
+                if not ok and len(viol) < 5:
+                    viol.append({'case': {'epoch': ep, 'utc_offset_minutes': off, 'field': name}, 'what': why})
+        if len(samples) < 3:
+            samples.append({'epoch': ep, 'octets': ep.to_bytes(4, 'big').hex()})
+    return {'name': 'C09/four-octet-timestamps', 'bound': '%d epochs (boundaries + seeded) x UTC offsets %s x 3 fields' % (len(epochs), offsets), 'cases': cases,
+            'distinct_nontrivial': len(set(epochs)) * (len(offsets) - 1), 'rule': 'one case per (epoch, offset, field); non-trivial = non-UTC offset', 'exhaustive': False,
+            'samples': samples, 'violations': viol, 'known_hits': []}
+
+
+def _pk(d):
+    import calendar
+    from pgpy.packet.packets import PubKeyV4
+    from pgpy.constants import PubKeyAlgorithm
+    pk = PubKeyV4()
+    pk.pkalg = PubKeyAlgorithm.RSAEncryptOrSign
+    pk.created = d
+    pk.update_hlen()
+    b = bytes(pk.__bytearray__())
+    body = b[len(pk.header.__bytearray__()):]     # the versioned header already carries the version octet
+    octets = body[0:4]
+    pk2 = PubKeyV4()
+    pk2.created = bytearray(octets)
+    return octets, calendar.timegm(pk2.created.utctimetuple())
+
+
+def _lit(d):
+    import calendar
+    from pgpy.packet.packets import LiteralData
+    lit = LiteralData()
+    lit.mtime = d
+    lit.update_hlen()
+    b = bytes(lit.__bytearray__())
+    body = b[len(lit.header.__bytearray__()):]
+    octets = body[2:6]
+    l2 = LiteralData()
+    l2.mtime = bytearray(octets)
+    return octets, calendar.timegm(l2.mtime.utctimetuple())
+
+
+def _ct(d):
+    import calendar
+    from pgpy.packet.subpackets.signature import CreationTime
+    c = CreationTime()
+    c.created = d
+    c.update_hlen()
+    b = bytes(c.__bytearray__())
+    octets = b[-4:]
+    c2 = CreationTime()
+    c2.created = bytearray(octets)
+    return octets, calendar.timegm(c2.created.utctimetuple())
